@@ -42,6 +42,8 @@ def run(ck: Check) -> None:
     t3(ck)
     t4(ck)
     t5(ck)
+    t6(ck)
+    ck.floor("T6", 2)
     ck.floor("T5", 14)
     ck.floor("T1", 9)
     ck.floor("T2", 1)
@@ -637,6 +639,57 @@ def t5(ck: Check) -> None:
                         probs.append(f"{g.name} receives `{a.id}` as its `{pn}`")
                 ck.ob("T5", fm, f.stmt_of(c), not probs, "; ".join(probs) if probs else
                       f"`{pn}` handed down to {g.name} unchanged", key=f"{f.name} -> {g.name}: {pn}")
+
+
+def t6(ck: Check) -> None:
+    """The net that is encoded is the caller's net: the parameter itself, its translation from the given network, or a
+    copy of it from which only the retained-set transitions were removed. Anything else between the entry point and the
+    encoder changes which transitions exist, i.e. which states count as deadlocks / which sets as traps."""
+    prog = ck.prog
+    MOD = "biobalm.trappist_core"
+    n_ = 0
+    for fm in prog.models():
+        f = fm.f
+        if f.module.name != MOD:
+            continue
+        for c in own_walk(f.node):
+            if not (isinstance(c, ast.Call) and callee_name(c) in ("_create_clingo_constraints", "_create_clingo_fixed_point_constraints")):
+                continue
+            g = prog.repo.functions.get(prog.repo.resolve_call(f, c) or "")
+            if g is None:
+                continue
+            idx = g.params().index("petri_net")
+            a = call_arg(c, idx, "petri_net")
+            cn = fm.cfgn(c)
+            n_ += 1
+            probs = []
+            net_params = [p_ for p_ in f.params() if p_ in ("petri_net", "network")]
+            vds = fm.value_defs(a.id, cn) if isinstance(a, ast.Name) else [(cn, a)]
+            for d, v in vds:
+                if d.kind == "entry":
+                    continue
+                if v is None:
+                    probs.append(f"line {d.lineno}: the encoded net is bound by a {type(d.ast).__name__}")
+                    continue
+                t = text(v)
+                ok = any(t in (p_, f"{p_}.copy()", f"copy.deepcopy({p_})", f"deepcopy({p_})", f"copy.copy({p_})") for p_ in net_params) \
+                    or (isinstance(v, ast.Call) and callee_name(v) == "network_to_petrinet" and v.args and text(v.args[0]) in net_params)
+                if not ok:
+                    probs.append(f"line {d.lineno}: the encoded net is `{t[:60]}`, not the caller's net (or its copy reduced by the "
+                                 f"retained set): transitions are added or removed on the way, so the solver answers for another "
+                                 f"transition system (e.g. restricting to a subspace that is no trap space deletes enabled "
+                                 f"transitions and reports spurious deadlocks)")
+            # in-place changes of the net: only remove_node of the retained-set transitions (checked in T1)
+            if isinstance(a, ast.Name):
+                for x in own_walk(f.node):
+                    if isinstance(x, ast.Call) and isinstance(x.func, ast.Attribute) and text(x.func.value) == a.id \
+                            and x.func.attr in ("add_node", "add_edge", "remove_edge", "remove_nodes_from", "remove_edges_from", "clear",
+                                                "add_nodes_from", "add_edges_from", "update"):
+                        probs.append(f"line {x.lineno}: `{text(x)[:50]}` edits the net that is encoded")
+            ck.ob("T6", fm, f.stmt_of(c), not probs, "; ".join(probs) if probs else
+                  "the encoded net is the caller's net (copy reduced by the retained set only)", key=f"{f.name}: encoded net")
+    if n_ == 0:
+        raise AnalysisError("anchor vanished: encoder calls in trappist_core")
 
 
 def t4(ck: Check) -> None:
